@@ -36,20 +36,21 @@ Record spec := mkSp {
   t_woke : list (gid * Z);   (* whose wait ran out in the running frame, and by how much *)
   t_risky : list gid;        (* see [sp_action] *)
   t_cur : option gid;        (* the coroutine whose body is running *)
+  t_abort : option Z;        (* the exception that left a body and ended the running frame *)
   ok08 : bool; ok09 : bool; okwf : bool
 }.
 
-Definition sp0 : spec := mkSp [] [] [] [] [] [] [] [] [] [] [] None true true true.
+Definition sp0 : spec := mkSp [] [] [] [] [] [] [] [] [] [] [] None None true true true.
 
 Definition flag08 (b : bool) (t : spec) : spec :=
   mkSp (t_st t) (t_pc t) (t_val t) (t_fin t) (t_order t) (t_norder t) (t_due t) (t_ran t)
-       (t_ghost t) (t_woke t) (t_risky t) (t_cur t) (ok08 t && b) (ok09 t) (okwf t).
+       (t_ghost t) (t_woke t) (t_risky t) (t_cur t) (t_abort t) (ok08 t && b) (ok09 t) (okwf t).
 Definition flag09 (b : bool) (t : spec) : spec :=
   mkSp (t_st t) (t_pc t) (t_val t) (t_fin t) (t_order t) (t_norder t) (t_due t) (t_ran t)
-       (t_ghost t) (t_woke t) (t_risky t) (t_cur t) (ok08 t) (ok09 t && b) (okwf t).
+       (t_ghost t) (t_woke t) (t_risky t) (t_cur t) (t_abort t) (ok08 t) (ok09 t && b) (okwf t).
 Definition flagwf (b : bool) (t : spec) : spec :=
   mkSp (t_st t) (t_pc t) (t_val t) (t_fin t) (t_order t) (t_norder t) (t_due t) (t_ran t)
-       (t_ghost t) (t_woke t) (t_risky t) (t_cur t) (ok08 t) (ok09 t) (okwf t && b).
+       (t_ghost t) (t_woke t) (t_risky t) (t_cur t) (t_abort t) (ok08 t) (ok09 t) (okwf t && b).
 
 Definition sp_state (t : spec) (g : gid) : Z :=
   match alookup g (t_st t) with
@@ -70,7 +71,7 @@ Definition exp_action (t : spec) (a : action) : outcome :=
 (* a successful start: ACTIVE, fresh promise, no longer a ghost *)
 Definition started (t : spec) (g : gid) : spec :=
   mkSp (aset g SAct (t_st t)) (t_pc t) (aset g None (t_val t)) (t_fin t) (t_order t)
-       (t_norder t) (t_due t) (t_ran t) (adel g (t_ghost t)) (t_woke t) (t_risky t) (t_cur t) (ok08 t) (ok09 t) (okwf t).
+       (t_norder t) (t_due t) (t_ran t) (adel g (t_ghost t)) (t_woke t) (t_risky t) (t_cur t) (t_abort t) (ok08 t) (ok09 t) (okwf t).
 
 (* a successful kill: TERMINATED at once; owed nothing; remembered as a
    ghost until the frame in which it would next have run *)
@@ -81,7 +82,7 @@ Definition killed (t : spec) (g : gid) : spec :=
             | None => t_ghost t
             end in
   mkSp (adel g (t_st t)) (t_pc t) (t_val t) (t_fin t) (remz g (t_order t))
-       (remz g (t_norder t)) (remz g (t_due t)) (t_ran t) gh (t_woke t) (t_risky t) (t_cur t) (ok08 t) (ok09 t) (okwf t).
+       (remz g (t_norder t)) (remz g (t_due t)) (t_ran t) gh (t_woke t) (t_risky t) (t_cur t) (t_abort t) (ok08 t) (ok09 t) (okwf t).
 
 (* the waits of g and of the running coroutine ran out in this frame, with the same deadline *)
 Definition tied_with (cur : option gid) (g : gid) (woke : list (gid * Z)) : bool :=
@@ -93,7 +94,7 @@ Definition tied_with (cur : option gid) (g : gid) (woke : list (gid * Z)) : bool
 
 Definition add_risk (b : bool) (g : gid) (t : spec) : spec :=
   mkSp (t_st t) (t_pc t) (t_val t) (t_fin t) (t_order t) (t_norder t) (t_due t) (t_ran t)
-       (t_ghost t) (t_woke t) (if b then g :: t_risky t else t_risky t) (t_cur t)
+       (t_ghost t) (t_woke t) (if b then g :: t_risky t else t_risky t) (t_cur t) (t_abort t)
        (ok08 t) (ok09 t) (okwf t).
 
 Definition is_ok (o : outcome) : bool := match o with OOk => true | _ => false end.
@@ -132,27 +133,27 @@ Definition head_ok (g : gid) (order : list gid) : bool :=
 
 Definition enter (t : spec) (g : gid) (k : Z) : spec :=
   mkSp (t_st t) (aset g (k + 1) (t_pc t)) (t_val t) (t_fin t) (remz g (t_order t))
-       (t_norder t) (remz g (t_due t)) (t_ran t) (t_ghost t) (t_woke t) (t_risky t) (Some g) (ok08 t) (ok09 t) (okwf t).
+       (t_norder t) (remz g (t_due t)) (t_ran t) (t_ghost t) (t_woke t) (t_risky t) (Some g) (t_abort t) (ok08 t) (ok09 t) (okwf t).
 
 Definition sp_result (t : spec) (g : gid) (res : result) : spec :=
   let ran := g :: t_ran t in
   match res with
   | RReturn v =>
       mkSp (adel g (t_st t)) (t_pc t) (aset g v (t_val t)) (g :: t_fin t) (t_order t)
-           (t_norder t) (t_due t) ran (adel g (t_ghost t)) (t_woke t) (t_risky t) None (ok08 t) (ok09 t) (okwf t)
+           (t_norder t) (t_due t) ran (adel g (t_ghost t)) (t_woke t) (t_risky t) None (t_abort t) (ok08 t) (ok09 t) (okwf t)
   | RYield y =>
       match is_pos y with
       | Some z =>
           if is_act t g
           then mkSp (aset g (SPaused z) (t_st t)) (t_pc t) (t_val t) (t_fin t) (t_order t)
-                    (t_norder t) (t_due t) ran (t_ghost t) (t_woke t) (t_risky t) None (ok08 t) (ok09 t) (okwf t)
+                    (t_norder t) (t_due t) ran (t_ghost t) (t_woke t) (t_risky t) None (t_abort t) (ok08 t) (ok09 t) (okwf t)
           else mkSp (t_st t) (t_pc t) (t_val t) (t_fin t) (t_order t) (t_norder t) (t_due t) ran
                     (if amem g (t_ghost t) then aset g (ZWait z) (t_ghost t) else t_ghost t)
-                    (t_woke t) (t_risky t) None (ok08 t) (ok09 t) (okwf t)
+                    (t_woke t) (t_risky t) None (t_abort t) (ok08 t) (ok09 t) (okwf t)
       | None =>
           mkSp (t_st t) (t_pc t) (t_val t) (t_fin t) (t_order t)
                (if is_act t g then t_norder t ++ [g] else t_norder t)
-               (t_due t) ran (t_ghost t) (t_woke t) (t_risky t) None (ok08 t) (ok09 t) (okwf t)
+               (t_due t) ran (t_ghost t) (t_woke t) (t_risky t) None (t_abort t) (ok08 t) (ok09 t) (okwf t)
       end
   end.
 
@@ -197,7 +198,7 @@ Definition woke_st (dt : Z) (l : list (gid * status)) : list (gid * Z) :=
 Definition tick (dt : Z) (t : spec) : spec :=
   let st' := map (tick_st dt) (t_st t) in
   mkSp st' (t_pc t) (t_val t) (t_fin t) (t_norder t) [] (act_keys st') []
-       (map (tick_gh dt) (t_ghost t)) (woke_st dt (t_st t)) [] None
+       (map (tick_gh dt) (t_ghost t)) (woke_st dt (t_st t)) [] None None
        (ok08 t) (ok09 t) (okwf t).
 
 Definition gh_stays (x : gid * ghost) : bool :=
@@ -213,7 +214,7 @@ Definition frame_end (t : spec) (exc : outcome) : spec :=
   (* input domain: see [sp_action] *)
   let t := flagwf (forallb (fun u => memz u (t_ran t)) (t_risky t)) t in
   mkSp (t_st t) (t_pc t) (t_val t) (t_fin t) (t_order t) (t_norder t) (t_due t) (t_ran t)
-       (filter gh_stays (t_ghost t)) [] [] None (ok08 t) (ok09 t) (okwf t).
+       (filter gh_stays (t_ghost t)) [] [] None None (ok08 t) (ok09 t) (okwf t).
 
 Definition bad (t : spec) : spec := flagwf false t.
 
